@@ -8,11 +8,18 @@ interleaving transition system).  Tie:
   * `unit channel`: operation sequences on the real memory_bound_channel (capacities 0, 1, smaller than one
     message, exactly one message, large) against the extracted step function under the same schedule, plus
     two-thread runs with many messages.
+  * `unit link`: real Command/Response values through a REAL pair of AsyncEncryptedComms objects (the encrypted TCP
+    channel: their own threads and 8 MiB buffers) - every variant, full 4 MiB chunks under paths of every length up to
+    PATH_MAX (and Windows-long ones), long link targets, large listings, both directions at once; sizes at the edge of
+    the buffers against the extracted `link_class` (Model/WireLink.v);
+  * end to end: the real CLI through the fake ssh (remote destination / remote source doer) on a tree with a file
+    of two full chunks under a long path, a long link target and a few hundred entries.
 The property oracle (exactly once, in order, intact; blocked only while more than the capacity is queued;
 oversize admitted when empty; drained -> 0) is evaluated in python on what the implementation did.
-The TCP leg (frame codec) belongs to the frames cluster (C10, Model/Frame.v)."""
-import os, sys, json, glob
+The adversarial side of the TCP leg (forged / replayed frames) belongs to the frames cluster (C10, Model/Frame.v)."""
+import os, sys, json, glob, shutil, tempfile, zlib, concurrent.futures
 import vlib, wire_lib as W
+import e2e
 
 THEOREMS = [
     'C14_codec', 'C14_codec_command', 'C14_codec_response', 'C14_decode_encode_command',
@@ -25,7 +32,11 @@ THEOREMS = [
     'C14_admission', 'C14_admission_loop', 'C14_oversize',
     'C14_progress', 'C14_progress_recv_decreases', 'C14_progress_wait_keeps',
     'C14_progress_admitted_at_zero', 'C14_sender_never_stuck', 'C14_bounded',
-    'C14_run_reach', 'C14_step_rules']
+    'C14_run_reach', 'C14_step_rules',
+    'C14_legit_command_fits', 'C14_legit_response_fits', 'C14_link_class_is_send_step',
+    'C14_legit_command_delivered', 'C14_legit_response_delivered',
+    'C14_link_delivers_commands', 'C14_link_delivers_responses',
+    'C14_frame_limits_match_code', 'C14_chunk_frames_fit_code']
 
 RULE = ('bincode: every Command/Response variant with random field values from boundary sets (u32/u64 extremes, '
         'UTF-8 of every width, times 0 .. i64::MAX and before the epoch), payload lengths 0,1,..,65536 and 4 MiB-1, 4 MiB, '
@@ -34,7 +45,15 @@ RULE = ('bincode: every Command/Response variant with random field values from b
         'channel: every valid schedule over {send 0/1/2/3 bytes, recv, try_recv} up to length 4 (quick) / 6 (thorough) for capacities 0..3, '
         'random schedules for capacity 0, 1, smaller than one message, exactly one message, large and the shipped 100 MiB, 4 MiB+ chunk '
         'messages around the capacity, each drained at the end; two-thread runs with thousands of messages and seeded yields; '
-        'every schedule with at least one send is non-trivial.')
+        'every schedule with at least one send is non-trivial. '
+        'link (encrypted TCP channel, real AsyncEncryptedComms pair): sequences of every variant in both directions at once; '
+        'CreateOrUpdateFile / FileContent with a full 4 MiB chunk (and 4 MiB-1, 2 MiB, random) under root-relative paths of '
+        '0 .. 4095 bytes (components <= 255 bytes, several levels, multi-byte characters; thorough: Windows-long 32 KiB / 96 KiB), with and '
+        'without a modification time, between small messages; symlinks with 4095-byte targets, SetRoot / Error / GetEntries with long '
+        'strings, listings of 1 500 (thorough 20 000) entries; single messages at the edges of the 8 MiB buffers (model class only); '
+        'a case is one request, non-trivial when it carries a message. '
+        'e2e: the real CLI with a remote destination / source doer (fake ssh) on a tree with a >= 8 MiB - 4 KiB file under a path of '
+        '230 .. 3000 bytes, a long link target and a few hundred entries.')
 
 
 # ------------------------------------------------------------------------------------------------
@@ -430,6 +449,327 @@ def two_thread_verdict(run, cap, k, sizes, line, il):
         run.broke('correspondence', 'channel-bounded', 'counter sampled at %s exceeds capacity + two messages (theorem C14_bounded): %s' % (f.get('max'), line))
 
 
+
+# ------------------------------------------------------------------------------------------------
+# the encrypted TCP channel
+def legit(m):
+    """A message the protocol can produce (from the property text: every payload size up to the largest file chunk;
+    strings are paths, link targets, patterns, error texts - 96 KiB is far beyond any of them)."""
+    return (m['data'] or 0) <= W.MIB4 and m['strings'] <= W.LEGIT_STRINGS_MAX
+
+
+def msg_words(m, which):
+    d = '%s #%d' % (m['variant'], which)
+    if m['data'] is not None:
+        d += ', %d data bytes' % m['data']
+    if m['strings']:
+        d += ', %d bytes of path/strings' % m['strings']
+    return d
+
+
+def parse_link_answer(ans):
+    f = dict(x.split('=', 1) for x in ans.split(' ')[1:])
+    lst = lambda v: [] if v == '-' else v.split(',')
+    return {'sc': lst(f['sc']), 'rc': lst(f['rc']), 'sr': lst(f['sr']), 'rr': lst(f['rr']),
+            'ends': f['ends'].split(','), 'to': f.get('to') == '1'}
+
+
+def link_direction_oracle(metas, sent, recv, what, sender_end, receiver_end, timed_out):
+    """One direction of the link: everything handed in must come out once, in order, bit-identical."""
+    if len(sent) != len(metas):
+        return None      # (glue problem, reported by the caller)
+    for i, (s_, m) in enumerate(zip(sent, metas)):
+        if i >= len(recv):
+            return ('%s (%s; %s bytes serialized) handed to the encrypted channel never reached the other side: %d of %d messages arrived; '
+                    'sending thread: %s, receiving thread: %s%s' % (what, msg_words(m, i), s_.split(':')[0], len(recv), len(sent),
+                                                                      sender_end, receiver_end, ', stalled' if timed_out else ''))
+        if recv[i] != s_:
+            where = 'again' if recv[i] in sent[:i] else ('early (out of order)' if recv[i] in sent[i + 1:] else 'altered')
+            return '%s (%s) arrived %s: sent %s, received %s' % (what, msg_words(m, i), where, s_, recv[i])
+    if len(recv) > len(sent):
+        return '%d more message(s) than were sent came out of the channel (%s direction): %s' % (len(recv) - len(sent), what, recv[len(sent):][:3])
+    return None
+
+
+def link_oracle(cm, rm, a):
+    """The property on what the real pair of AsyncEncryptedComms did with one request; only for requests whose every
+    message is one the protocol can produce."""
+    if not all(legit(m) for m in cm + rm):
+        return None
+    return (link_direction_oracle(cm, a['sc'], a['rc'], 'command', a['ends'][0], a['ends'][1], a['to']) or
+            link_direction_oracle(rm, a['sr'], a['rr'], 'response', a['ends'][2], a['ends'][3], a['to']))
+
+
+def link_requests(run, tier):
+    """(request line, kind) - see RULE."""
+    rng = run.rng
+    quick = tier == 'quick'
+    reqs = []
+    # every variant, both directions at once, the final message of each direction last
+    for _ in range(1 if quick else 10):
+        n = 60 if quick else 200
+        cmds = [W.small_command(rng) for _ in range(n)] + ['C Shutdown']
+        resps = [W.small_response(rng) for _ in range(n)] + ['R ProfilingDataDefault']
+        reqs.append((W.link_request(cmds, resps), 'all-variants'))
+    # the chunk carriers with the largest chunk, under paths of every length
+    totals = list(W.PATH_TOTALS)
+    rng.shuffle(totals)
+    nbig = 6 if quick else 60
+    for k in range(nbig):
+        total = totals[k % len(totals)] if (quick or k < len(totals)) else rng.randrange(0, W.PATH_MAX)
+        if not quick and k % 20 == 19:
+            total = rng.choice([32767, W.WIN_PATH_MAX_UTF8])
+        if quick and k == 0:
+            total = rng.choice([766, 1000, 2047, 3000, 4000, 4095])      # at least one long path with a full chunk in every run
+        size = W.MIB4 if k % 3 != 2 else rng.choice([W.MIB4 - 1, W.MIB4 // 2, rng.randrange(1, W.MIB4)])
+        path = W.long_path(rng, total, wide=rng.random() < 0.3)
+        cmds = [W.small_command(rng), W.chunk_command(rng, size, path, mtime=rng.random() < 0.6), W.small_command(rng)]
+        resps = [W.small_response(rng), W.chunk_response(rng, W.MIB4 if k % 2 == 0 else size), W.small_response(rng)]
+        reqs.append((W.link_request(cmds, resps), 'chunk'))
+    # long strings everywhere else, and a large listing
+    lp = lambda: W.long_path(rng, rng.choice([255, 766, 2047, 4000, 4095]), wide=rng.random() < 0.3)
+    cmds = ['C SetRoot ' + W.hexs('/' + lp()), 'C GetEntries %d %s %d %s' % (300, ' '.join(W.hexs(rng.choice(W.PATTERNS) + 'x' * rng.randrange(200)) for _ in range(300)),
+                                                                            300, ' '.join(rng.choice('IE') for _ in range(300)))]
+    for _ in range(8 if quick else 40):
+        cmds += ['C CreateSymlink %s %s %s %s' % (W.hexs(lp()), W.r_kind(rng), rng.choice(['norm', 'notnorm']), W.hexs(lp())),
+                 'C DeleteSymlink %s %s' % (W.hexs(lp()), W.r_kind(rng)), 'C CreateFolder ' + W.hexs(lp()), 'C GetFileContent ' + W.hexs(lp()),
+                 'C DeleteFile ' + W.hexs(lp()), 'C DeleteFolder ' + W.hexs(lp())]
+    cmds.append('C Shutdown')
+    resps = ['R RootDetails some symlink Unknown notnorm %s 1 %s' % (W.hexs(lp()), W.hexs('/')), 'R Error ' + W.hexs('e' * 65536)]
+    resps += W.listing(rng, 1500 if quick else 20000)
+    reqs.append((W.link_request(cmds, resps), 'long-strings-and-listing'))
+    # single messages at the edges of the 8 MiB buffers: outside what the protocol produces, compared with the model only
+    ofc, ocf = 13, 34
+    edge = [8388608 - 8 - 16 - ofc, 8388608 - 8 - 16 - ofc + 1]
+    if not quick:
+        edge += [8388608 - 8 - ofc, 8388608 - 8 - ofc + 1, 5 * 1024 * 1024, 8388608 - 8 - 16 - ofc - 1]
+    for n in edge:
+        reqs.append((W.link_request([], [W.chunk_response(rng, n)]), 'buffer-edge'))
+    for plen in ([1000] if quick else [0, 255, 4095]):
+        for extra in ((0, 1) if not quick else (rng.choice([0, 1]),)):
+            n = 8388608 - 8 - 16 - (ocf - 12) - plen + extra          # without a modification time
+            reqs.append((W.link_request([W.chunk_command(rng, n, W.long_path(rng, plen), mtime=False)], []), 'buffer-edge'))
+    return reqs
+
+
+def judge_parallel(jbin, lines, weights, nproc=6):
+    if not lines:
+        return []
+    k = max(1, min(nproc, vlib.NPROC, len(lines)))
+    # the heavy lines (large payloads) are spread round-robin
+    order = sorted(range(len(lines)), key=lambda i: -weights[i])
+    parts = [order[i::k] for i in range(k)]
+    with concurrent.futures.ThreadPoolExecutor(max_workers=k) as ex:
+        res = list(ex.map(lambda idx: W.judge(jbin, [lines[i] for i in idx]), parts))
+    out = [None] * len(lines)
+    for idx, r in zip(parts, res):
+        if len(r) != len(idx):
+            raise vlib.BrokenTie('judge answered %d of %d link lines' % (len(r), len(idx)))
+        for i, x in zip(idx, r):
+            out[i] = x
+    return out
+
+
+def link_parallel(binary, lines, weights, nproc=4, idle_ms=60000):
+    k = max(1, min(nproc, vlib.NPROC, len(lines)))
+    order = sorted(range(len(lines)), key=lambda i: -weights[i])
+    parts = [order[i::k] for i in range(k)]
+    with concurrent.futures.ThreadPoolExecutor(max_workers=k) as ex:
+        res = list(ex.map(lambda idx: vlib.harness(binary, 'link', [lines[i] for i in idx], args=[str(idle_ms)], timeout=1500), parts))
+    out = [None] * len(lines)
+    for idx, r in zip(parts, res):
+        if len(r) != len(idx):
+            raise vlib.BrokenTie('link harness answered %d of %d lines' % (len(r), len(idx)))
+        for i, x in zip(idx, r):
+            out[i] = x
+    return out
+
+
+def link_verdict(run, line, kind, il, judged):
+    """Property oracle on the implementation's answer, then the correspondence with the model's answers (one per message)."""
+    cm, rm = W.parse_link_request(line)
+    a = parse_link_answer(il)
+    run.count('link:' + kind)
+    for m in cm + rm:
+        run.count('link-msg:' + m['variant'])
+        if m['data'] is not None and m['data'] >= W.MIB4 - 1:
+            run.count('link:full-chunk-path-bytes:%s' % ('-' if m['variant'] == 'FileContent' else
+                                                          ('<=217' if m['strings'] <= 217 else '218..4095' if m['strings'] <= 4095 else '>4095')))
+    run.case(line, bool(cm or rm), sample={'link': line[:160], 'impl': il[:200]} if kind == 'chunk' else None)
+    run.traces_validated += 1
+    replay = {'driver': 'link', 'request': line, 'kind': kind, 'impl': il[:600]}
+    if len(a['sc']) != len(cm) or len(a['sr']) != len(rm):
+        run.broke('correspondence', 'link-glue', 'the harness built %d/%d messages for %d/%d descriptions' % (len(a['sc']), len(a['sr']), len(cm), len(rm)))
+        return
+    bad = link_oracle(cm, rm, a)
+    if bad:
+        if len(run.prop_failures) < 4:
+            vlib.log('link: ' + bad[:400])
+        run.fail('C14 encrypted channel: ' + bad, replay)
+        return
+    # model: size and digest of every encoding, and whether the link takes the message
+    for metas, sent, recv, jl, send_end in ((cm, a['sc'], a['rc'], judged[:len(cm)], a['ends'][0]), (rm, a['sr'], a['rr'], judged[len(cm):], a['ends'][2])):
+        stop = None
+        for i, (m, s_, j) in enumerate(zip(metas, sent, jl)):
+            f = dict(x.split('=', 1) for x in j.split(' ') if '=' in x)
+            if '%s:%s' % (f.get('size'), f.get('crc')) != s_:
+                run.broke('correspondence', 'link-encoding', json.dumps({'message': m['text'][:200], 'impl': s_, 'model': j}))
+                return
+            if f.get('class') != 'delivered' and stop is None:
+                stop = (i, f.get('class'))
+        want = sent if stop is None else sent[:stop[0]]
+        want_end = 'running' if stop is None else {'serialize': 'serialize', 'tag-panic': 'panic-slice'}.get(stop[1], '?')
+        if recv != want or (stop is not None and send_end != want_end):
+            run.broke('correspondence', 'link-class', json.dumps({'request': line[:300], 'impl': il[:400], 'model_stops_at': stop,
+                                                                   'expected_delivered': len(want), 'expected_sender_end': want_end}))
+            return
+
+
+def run_link(run, binary, jbin, tier, only=None):
+    reqs = link_requests(run, tier) if only is None else only
+    lines = [r[0] for r in reqs]
+    klines, kweights, weights, spans = [], [], [], []
+    weight = lambda m: (m['data'] or 0) + m['strings'] + 64
+    for line in lines:
+        cm, rm = W.parse_link_request(line)
+        spans.append((len(klines), len(cm) + len(rm)))
+        klines += ['K C ' + m['text'] for m in cm] + ['K R ' + m['text'] for m in rm]
+        kweights += [weight(m) for m in cm + rm]
+        weights.append(sum(weight(m) for m in cm + rm))
+    with concurrent.futures.ThreadPoolExecutor(max_workers=2) as ex:
+        fi = ex.submit(link_parallel, binary, lines, weights)
+        fj = ex.submit(judge_parallel, jbin, klines, kweights)
+        impl, judged = fi.result(), fj.result()
+    for (line, kind), il, (a, n) in zip(reqs, impl, spans):
+        link_verdict(run, line, kind, il, judged[a:a + n])
+
+
+def search_link(run, binary):
+    """Something (a proof obligation against the code, a correspondence case) broke without a failing input: look for one
+    among the largest messages the oracle still counts as legitimate - full chunks under Windows-long paths, 96 KiB strings."""
+    rng = run.rng
+    reqs = []
+    for total in (4095, 8191, 32767, W.WIN_PATH_MAX_UTF8, W.LEGIT_STRINGS_MAX):
+        for mt in (True, False):
+            reqs.append(W.link_request([W.chunk_command(rng, W.MIB4, W.long_path(rng, total), mtime=mt)], [W.chunk_response(rng, W.MIB4)]))
+    half = W.LEGIT_STRINGS_MAX // 2
+    reqs.append(W.link_request(['C CreateSymlink %s File notnorm %s' % (W.hexs(W.long_path(rng, half)), W.hexs(W.long_path(rng, half))),
+                                'C SetRoot ' + W.hexs('r' * W.LEGIT_STRINGS_MAX)],
+                               ['R Error ' + W.hexs('e' * W.LEGIT_STRINGS_MAX),
+                                'R Entry %s symlink Unknown norm %s' % (W.hexs(W.long_path(rng, half)), W.hexs(W.long_path(rng, half)))]))
+    impl = link_parallel(binary, reqs, [1] * len(reqs))
+    for line, il in zip(reqs, impl):
+        cm, rm = W.parse_link_request(line)
+        a = parse_link_answer(il)
+        if len(a['sc']) == len(cm) and len(a['sr']) == len(rm):
+            bad = link_oracle(cm, rm, a)
+            if bad:
+                return 'C14 encrypted channel: ' + bad, {'driver': 'link', 'request': line, 'kind': 'search', 'impl': il[:600]}
+    return None
+
+
+# ------------------------------------------------------------------------------------------------
+# end to end: the real CLI, one side behind the fake ssh
+def e2e_scenario(rng, tier, placement, big=None, rel_total=None):
+    """A source tree whose messages are as large as the protocol makes them: a file of at least two full chunks (the chunk
+    size doubles from 4 KiB, so 8 MiB - 4 KiB is the smallest file with a full 4 MiB chunk) below long directory
+    names, a symlink with a long target, a few hundred small entries."""
+    big = big if big is not None else rng.choice([8 * 1024 * 1024 - 4096, 8 * 1024 * 1024, 9 * 1024 * 1024 + 123])
+    rel_total = rel_total if rel_total is not None else rng.choice([230, 258, 600, 1500, 3000])
+    return {'placement': placement, 'big': big, 'rel_total': rel_total, 'seed': rng.randrange(2 ** 32),
+            'entries': 200 if tier == 'quick' else 2000}
+
+
+def e2e_tree(sc):
+    import random
+    rng = random.Random(sc['seed'])
+    tree = {'': {'k': 'dir'}}
+    rel = W.long_path(rng, sc['rel_total'])
+    comps = rel.split('/')
+    if len(comps) < 2:            # at least one directory level
+        comps = [comps[0][:len(comps[0]) // 2] or 'd', comps[0][len(comps[0]) // 2:] or 'f']
+    comps = [c.replace(' ', '_').replace('\\', '_') for c in comps]
+    for i in range(1, len(comps)):
+        tree['/'.join(comps[:i])] = {'k': 'dir'}
+    tree['/'.join(comps)] = {'k': 'file', 'data': rng.randbytes(sc['big']), 'mtime_ns': 1600000000123456789}
+    tree['small'] = {'k': 'dir'}
+    for k in range(sc['entries']):
+        name = 'small/' + W.long_path(rng, rng.choice([1, 8, 40, 120, 255])).replace('/', '_').replace(' ', '_').replace('\\', '_') 
+        if name in tree or name.endswith(('/.', '/..')):
+            continue
+        r = rng.random()
+        if r < 0.7:
+            tree[name] = {'k': 'file', 'data': rng.randbytes(rng.choice([0, 1, 100, 4095, 4096, 4097, 70000])), 'mtime_ns': 1500000000000000000 + k}
+        elif r < 0.85:
+            tree[name] = {'k': 'dir'}
+        else:
+            tree[name] = {'k': 'link', 'text': os.fsencode(W.long_path(rng, rng.choice([1, 30, 255, 1000, 4000])))}
+    tree['link-with-a-long-target'] = {'k': 'link', 'text': os.fsencode(W.long_path(rng, 4095).replace('\\', '_'))}
+    return tree, '/'.join(comps)
+
+
+def e2e_oracle(sc, r, src_snap, dest_snap, big_rel):
+    """Everything the source held must be at the destination, bit-identical (what crossed the channel: listings, file
+    chunks with their path and time, link targets), and the run must not have lost a message on the way."""
+    text = (r['stdout'] + r['stderr'])
+    if r['timed_out']:
+        return 'the sync did not finish (a message never arrived?)'
+    if r['exit'] != 0:
+        lines = [l for l in text.splitlines() if 'ERROR' in l or 'error' in l]
+        return 'the sync failed (exit %s): %s' % (r['exit'], ' | '.join(l.strip()[:200] for l in lines[:3]) or text[-300:])
+    for rel, node in src_snap.items():
+        got = dest_snap.get(rel)
+        if got != node:
+            return 'destination entry %r is %s, the source has %s' % (rel[:80] + ('...' if len(rel) > 80 else ''), 
+                                                                       (got[:2] if got else 'missing'), node[:2])
+    extra = set(dest_snap) - set(src_snap)
+    if extra:
+        return 'destination has entries the source does not have: %r' % sorted(extra)[:3]
+    return None
+
+
+def run_one_e2e(binary, base, fake, sc, keep=False):
+    root = tempfile.mkdtemp(prefix='e_', dir=base)
+    try:
+        tree, big_rel = e2e_tree(sc)
+        src, dest = os.path.join(root, 's'), os.path.join(root, 'd')
+        e2e.build_tree(src, tree)
+        pre = lambda p, side: ('localhost:' if sc['placement'][side] == 'R' else '') + p
+        r = e2e.run_cli(binary, [pre(src, 0), pre(dest, 1)], timeout=300, fake_ssh=fake)
+        bad = e2e_oracle(sc, r, e2e.snapshot(src), e2e.snapshot(dest), big_rel)
+        return bad, big_rel, r
+    finally:
+        if not keep:
+            shutil.rmtree(root, ignore_errors=True)
+
+
+def run_e2e(run, binary, tier, only=None):
+    rng = run.rng
+    if only is not None:
+        scs = only
+    elif tier == 'quick':
+        scs = [e2e_scenario(rng, tier, 'LR'), e2e_scenario(rng, tier, 'RL')]
+    else:
+        scs = [e2e_scenario(rng, tier, pl, big=b, rel_total=t) for pl in ('LR', 'RL', 'RR')
+               for b, t in [(8 * 1024 * 1024 - 4096, 258), (9 * 1024 * 1024 + 123, 3000), (20 * 1024 * 1024 + 1, 1500), (8 * 1024 * 1024, 600)]]
+    base = tempfile.mkdtemp(prefix='c14_', dir=vlib.CACHE)
+    try:
+        fake = e2e.fake_ssh_dir(base)
+        with concurrent.futures.ThreadPoolExecutor(max_workers=3) as ex:
+            res = list(ex.map(lambda sc: run_one_e2e(binary, base, fake, sc), scs))
+        for sc, (bad, big_rel, r) in zip(scs, res):
+            run.count('e2e:' + sc['placement'])
+            run.count('e2e:big-file-path-bytes:%d' % len(big_rel.encode()))
+            run.case(('e2e', json.dumps(sc, sort_keys=True)), True, sample={'e2e': sc, 'exit': r['exit']})
+            run.traces_validated += 1
+            if bad:
+                vlib.log('e2e %s: %s' % (sc['placement'], bad[:400]))
+                run.fail('C14 encrypted channel, end to end (%s doer remote; %d-byte file under a %d-byte root-relative path): %s'
+                         % ({'LR': 'destination', 'RL': 'source', 'RR': 'both'}[sc['placement']], sc['big'], len(big_rel.encode()), bad),
+                         {'driver': 'e2e', 'scenario': sc})
+    finally:
+        shutil.rmtree(base, ignore_errors=True)
+
 # ------------------------------------------------------------------------------------------------
 def run_corpus(run, binary, jbin):
     chan = []
@@ -450,6 +790,8 @@ def run_corpus(run, binary, jbin):
                         continue
                 if il != ml:
                     run.broke('correspondence', 'corpus-' + os.path.basename(path), json.dumps({'request': line[:300], 'impl': il[:600], 'model': ml[:600]}))
+        elif c.get('driver') == 'link':
+            run_link(run, binary, jbin, 'quick', only=[(l, 'corpus') for l in c['requests']])
         elif c.get('driver') == 'channel':
             for sc in c['schedules']:
                 v = valid_for(sc['cap'], sc['ops'])
@@ -462,18 +804,31 @@ def check(run):
     run.trusted = list(vlib.COMMON_TRUSTED) + [
         'modelled, not verified: serde derive + bincode 1.3.3 (checked byte for byte on sampled messages), std SystemTime/Duration arithmetic, '
         'crossbeam-channel (assumed FIFO and linearizable), per-location coherence of the relaxed atomic counter, real thread timing (sampled)',
-        'the TCP leg (frame codec, AEAD, nonce) is covered by the frames cluster (C10, Model/Frame.v), not here']
+        'the encrypted TCP leg: the frame automata and the stream theorem are Model/Frame.v / FrameProofs.v of the frames cluster (C10); AES-128-GCM as an AEAD that '
+        'opens what it sealed and appends 16 bytes, TCP as an in-order byte stream; the adversarial theorems are C10',
+        'Gen/Facts_chunks.v (largest payload a real pair of comms objects delivered, top of the chunk ladder) is measured by the chunks cluster (C11) harness']
     run.assumptions = ['times before the Unix epoch are outside the codec (serde refuses them; the channel send panics: defect F8, property C18)',
                        'regex compilation inside the Filters decoder and HashMap iteration order of ProfilingData are outside the model',
-                       'one sender thread and one receiver thread per channel (Sender/Receiver are not Clone)']
+                       'one sender thread and one receiver thread per channel (Sender/Receiver are not Clone)',
+                       'a message the protocol can produce carries at most one 4 MiB chunk and at most 4 MiB - 1 KiB of strings (theorems) / 96 KiB (oracle of the link driver); '
+                       'larger single messages (up to the 8 MiB buffers) are compared with the model only']
     run.extra['rule'] = RULE
     binary = vlib.build_impl()
     vlib.regen_facts(binary)
-    run.check_proofs('C14', THEOREMS, extra_targets=['theories/Extract/Ex_wire.vo'])
+    if not run.check_proofs('C14', THEOREMS, extra_targets=['theories/Extract/Ex_wire.vo']):
+        vlib.build_coq(['theories/Extract/Ex_wire.vo'])      # the model still runs when a proof (or an obligation against the code) broke
     jbin = vlib.build_judge('wire')
+    import time
+    t0 = time.time()
     extra = run_corpus(run, binary, jbin)
+    run_link(run, binary, jbin, run.tier)
+    t1 = time.time()
+    run_e2e(run, binary, run.tier)
+    t2 = time.time()
     run_bincode(run, binary, jbin, run.tier)
+    t3 = time.time()
     run_channel(run, binary, jbin, run.tier, extra)
+    vlib.log('legs: corpus+link %.1fs, e2e %.1fs, bincode %.1fs, channel %.1fs' % (t1 - t0, t2 - t1, t3 - t2, time.time() - t3))
     if run.tier == 'thorough':
         # the release build as well: usize arithmetic wraps instead of panicking there, and thread timing differs
         rbin = vlib.build_impl(release=True)
@@ -481,23 +836,35 @@ def check(run):
         # (the release profile has panic = "abort": the pre-epoch panic cannot be caught in-process there)
         run_bincode(run, rbin, jbin, 'quick', pre_epoch=False)
         run_channel(run, rbin, jbin, 'quick', extra)
+        # (a panicking sending thread aborts the whole process there: the buffer-edge cases run on the debug build only)
+        run_link(run, rbin, jbin, 'thorough', only=[r for r in link_requests(run, 'thorough') if r[1] != 'buffer-edge'])
+        run_e2e(run, rbin, 'quick')
         run.count('cases-on-the-release-build', run.evaluations - before)
-    return run.finish(search=None)     # every case already ran the property oracle on the implementation
+    # every case already ran the property oracle on the implementation; when only a proof obligation or a correspondence case
+    # broke, look for a failing input among the largest messages that still count as legitimate
+    return run.finish(search=lambda: search_link(run, binary))
 
 
 def replay(run, path):
     """Re-run exactly the recorded case (a codec request or a channel schedule) on the implementation and the model."""
     r = json.load(open(path))
     print(json.dumps(r, indent=1)[:4000])
-    if r.get('driver') not in ('bincode', 'channel'):
+    if r.get('driver') not in ('bincode', 'channel', 'link', 'e2e'):
         return check(run)
     run.trusted = list(vlib.COMMON_TRUSTED)
     run.extra['rule'] = 'replay of one recorded case'
     binary = vlib.build_impl()
     vlib.regen_facts(binary)
-    run.check_proofs('C14', THEOREMS, extra_targets=['theories/Extract/Ex_wire.vo'])
+    if not run.check_proofs('C14', THEOREMS, extra_targets=['theories/Extract/Ex_wire.vo']):
+        vlib.build_coq(['theories/Extract/Ex_wire.vo'])
     jbin = vlib.build_judge('wire')
-    if r['driver'] == 'bincode':
+    if r['driver'] == 'link':
+        run_link(run, binary, jbin, run.tier, only=[(r['request'], r.get('kind', 'replay'))])
+        il = vlib.harness(binary, 'link', [r['request']], args=['20000'], timeout=900)
+        print('impl : ' + (il[0] if il else '')[:600])
+    elif r['driver'] == 'e2e':
+        run_e2e(run, binary, run.tier, only=[r['scenario']])
+    elif r['driver'] == 'bincode':
         line = r['request']
         il = vlib.harness(binary, 'bincode', [line])[0]
         ml = W.judge(jbin, [line])[0]
